@@ -467,7 +467,7 @@ fn fam_class(rng: &mut Rng) -> Gen {
     let mut depth = 0usize;
     let mut files2: Vec<(String, String)> = Vec::new();
     let sub;
-    match rng.below(8) {
+    match rng.below(10) {
         0 => {
             sub = "cycle";
             let k = rng.range(1, 6);
@@ -606,6 +606,49 @@ fn fam_class(rng: &mut Rng) -> Gen {
                 tys.push(format!("GC{i}<integer>"));
                 tys.push(format!("GC{i}<GC{j}<string>>"));
             }
+        }
+        8 | 9 => {
+            // multi-parent cycles that braid through different parents (every class is on a ring and lists other ring
+            // classes as parents too), generic or not, used as arguments of generic functions / parameters
+            sub = "braid";
+            let generic = rng.chance(2, 3);
+            let k = rng.range(3, 6);
+            depth = k;
+            let p = |i: usize| if generic { format!("BR{i}<T>") } else { format!("BR{i}") };
+            let exact = k == 4 && rng.chance(1, 2);
+            for i in 0..k {
+                let sups: Vec<String> = if exact {
+                    // A: P, B ; P: B ; B: Q, A ; Q: A
+                    match i { 0 => vec![p(1), p(2)], 1 => vec![p(2)], 2 => vec![p(3), p(0)], _ => vec![p(0)] }
+                } else {
+                    let mut v: Vec<String> = (0..rng.range(0, 2)).map(|_| p(rng.below(k))).collect();
+                    let pos = rng.below(v.len() + 1);
+                    v.insert(pos, p((i + 1) % k));
+                    v
+                };
+                w!(s, "---@class {}: {}", p(i), sups.join(", "));
+                if rng.chance(1, 3) {
+                    w!(s, "---@field f {}", if generic { format!("BR{}<T>", rng.below(k)) } else { format!("BR{}", rng.below(k)) });
+                }
+            }
+            let inst = |i: usize| if generic { format!("BR{i}<string>") } else { format!("BR{i}") };
+            w!(s, "---@class Box<T>\n---@field v T\n");
+            w!(s, "---@generic T\n---@param b Box<T>\n---@return T\nlocal function unbox(b) end");
+            w!(s, "---@generic T\n---@param x T[]\n---@return T\nlocal function el(x) end");
+            if generic {
+                w!(s, "---@generic T\n---@param x BR{}<T>\n---@return T\nlocal function un(x) end", rng.below(k));
+                w!(s, "---@generic T\n---@param f fun(x: BR{}<T>): T\n---@return T\nlocal function ap(f) end", rng.below(k));
+            } else {
+                w!(s, "---@generic T: BR{}\n---@param x T\n---@return T\nlocal function un(x) end", rng.below(k));
+                w!(s, "---@generic T\n---@param f fun(x: T): BR{}\n---@return T\nlocal function ap(f) end", rng.below(k));
+            }
+            for i in 0..k.min(3) {
+                let j = rng.below(k);
+                w!(s, "---@type {}\nlocal br{i}\nlocal ru{i} = unbox(br{i})\nlocal re{i} = el(br{i})\nlocal rn{i} = un(br{i})", inst(j));
+                w!(s, "---@type fun(x: {}): string\nlocal cb{i}\nlocal ra{i} = ap(cb{i})\nlocal _m{i} = br{i}.f", inst(rng.below(k)));
+            }
+            tys.push(inst(0));
+            tys.push(inst(rng.below(k)));
         }
         _ => {
             sub = "field-self";
